@@ -1680,7 +1680,7 @@ class Stream(AbstractStream):
                 raise RuntimeError('phase is locked; stream cannot be unlinked')
             else:
                 imol._phase = imol._phase.copy()
-        imol._data_cache.clear()
+        imol._data_cache = {} # The old cache may be shared with the streams linked before
         imol.data = imol.data.copy()
         self._thermal_condition = self._thermal_condition.copy()
         self.reset_cache()
